@@ -24,7 +24,7 @@ ASSUMPTIONS = ['no manual intervention', 'retry delays PT1S under a virtual '
                'clock advancing 1-5 s per main-loop iteration']
 MIN = {'c02.submissions': 400, 'c02.resubmissions': 30,
        'c02.failed_completions': 20}
-NCASES = {'quick': 300, 'thorough': 4000}
+NCASES = {'quick': 1000, 'thorough': 12000}
 
 
 def ncases(tier):
